@@ -90,7 +90,7 @@ def check(ctx):
                 if pr == "(false,false)":
                     ctx.expect(t.startswith("Err("), "C14.3", "marker-consumed/" + pr, site(arm), "mixed fields are an error", "mixed arm: " + t[:100])
                 else:
-                    ctx.expect("if(P%d)" % i_flag in t, "C14.3", "marker-consumed/" + pr, site(arm), "the needs-marker flag decides whether the marker is emitted in this form",
+                    ctx.expect("if(P%d)" % i_flag in t or "then(P%d," % i_flag in t, "C14.3", "marker-consumed/" + pr, site(arm), "the needs-marker flag decides whether the marker is emitted in this form",
                                "the %s form ignores the unused-parameter marker flag: a struct of this form with unused type parameters gets no PhantomData" % pr)
         else:
             ctx.bad("C14.3", "missing-anchor/named-unnamed-match", fe["sp"], "match on (all_named, all_unnamed) not found")
